@@ -174,7 +174,7 @@ def gen_since(rng, times, kind):
 
 
 def gen_log(rng, nlines, kind='std', ordered=True, undated=0.2, max_run=40,
-            longs=0.25, malformed=0.0, lookalike=0.0, len_set=None):
+            longs=0.25, malformed=0.0, lookalike=0.0, len_set=None, embedded=0.15):
     """
     -> (content bytes, list of datetimes used). Lines: '<timestamp> words…' or undated
     words; lengths drawn around the 64/256-byte boundaries.
@@ -203,6 +203,19 @@ def gen_log(rng, nlines, kind='std', ordered=True, undated=0.2, max_run=40,
             run = 0
             ln = matchers.fmt_ts(kind, t, rng).encode() + (b' ' + body if body else b'')
             used.append(t)
+        if embedded and rng.random() < embedded:
+            # a timestamp that is NOT at the start of a line (any time, any position)
+            t2 = t + timedelta(seconds=rng.choice([-86400 * 30, -3600, -1, 0, 1, 3600,
+                                                   86400 * 30]))
+            emb = matchers.fmt_ts(kind, t2, rng).encode()
+            if rng.random() < 0.5:
+                ln = rng.choice([b'x', b' ', b'ab ', b'#', b'x' * 254, b'y' * 255]) + emb + \
+                    b' ' + ln
+            else:
+                ln = ln + rng.choice([b' ', b' at ', b'x' * 200]) + emb
+            if ln[:1] in b'0123456789[' and len(used) and lines and \
+                    matchers.oracle_ts(kind, ln[:64]) is not None and run > 0:
+                run = 0
         if rng.random() < longs:
             ln = gen.pad_to(rng, ln, rng.choice(len_set))
         if malformed and rng.random() < malformed:
